@@ -411,9 +411,13 @@ def judge(c, r, v):
     return res
 
 
-def shrink(case, rounds=10):
+def shrink(case, rounds=10, budget_s=150.0):
+    import time
+    t0 = time.time()
     cur = case
     for _ in range(rounds):
+        if time.time() - t0 > budget_s:
+            break
         rows = cur["rows"]
         cands = []
         if cur.get("calls") and len(cur["calls"]) > 1:
